@@ -23,6 +23,10 @@ CHECKS = {
          "Every tree with <= 4 (thorough 5) nodes - files with 4 contents, directories, symlinks to every other node / .. / itself / a missing name / a file outside: file links, directory links, chains, true cycles, dangling links by construction - is written to disk and recorded under follow x normalise; all trees <= 3 nodes additionally under deviating algorithm lists, exclude patterns, strip prefixes and path lists; InTotoRun / RecordStart+Stop x 5 file changes; the 81 match-products combinations. ref.Walk decides the exact artifact map (names, digests per algorithm) or that an error is due (dangling, unknown algorithm, collision, true cycle).",
          "Trusted: ref.Walk, crypto/sha*. Outside: bigger trees, other contents; exclude patterns with symlinks or naming a directory (don't-care).",
          "DESIGN.md §3 C13"),
+ "C14": ("bounded-exhaustive enumeration of child write scripts executed by real processes through RunCommand, exact capture comparison, structural (not timed) deadlock detection through /proc and FIONREAD",
+         "All scripts of <= 3 (thorough 4) operations over {write 1/2/3 half-pipe units to stdout/stderr, close stdout, close stderr} x exit 0/3/255, plus signals, pauses, working directories, volume up to 4 MiB and unstartable / empty commands, run as real children; every write uses its own fill byte, so stdout, stderr and the exit status are compared exactly; a hang is established structurally (child in write(2) on a pipe whose fill level, read on the parent's end, equals its capacity and does not move while RunCommand has not returned). Schedules between parent and child are the kernel's: the interleaving the property quantifies over is the child's write order, which is enumerated.",
+         "Trusted: linux /proc, FIONREAD, F_GETPIPE_SZ. Not done in this check: the all-schedules exploration over a simulated process (DESIGN.md C14 exploration 1).",
+         "DESIGN.md §3 C14"),
  "C17": ("bounded-exhaustive enumeration of all patterns x all names over metacharacter alphabets, differential against a reference matcher",
          "Every pattern up to length 5 (quick) / 6 (thorough) over an alphabet holding every metacharacter, against every name up to length 4 / 5, "
          "plus a metacharacter-name and a UTF-8 alphabet, is pushed through Set.Filter and compared with an independent backtracking matcher written from the documented grammar; "
